@@ -3,3 +3,4 @@ import Mitx.Props.C06
 import Mitx.Props.C10
 import Mitx.Props.C17
 import Mitx.Props.C08
+import Mitx.Props.C07
